@@ -189,6 +189,12 @@ fn sweeps(thorough: bool) -> Vec<Sweep> {
 			}
 		}) });
 	}
+	// Context::follows for the four contexts, and the whitespace predicate
+	v.push(Sweep { sw: json!(["follows"]), lo: 0, hi: 0x10ffff, f: Box::new(move |x| ch(x).map(|c| {
+		use json_syntax::parse::Context;
+		let b = |x: bool| x as i64;
+		("follows".to_string(), vec![b(Context::None.follows(c)), b(Context::Array.follows(c)), b(Context::ObjectKey.follows(c)), b(Context::ObjectValue.follows(c)), b(json_syntax::parse::is_whitespace(c))])
+	})) });
 	// the width attributed to every scalar by the layout decision: the smallest Limit::Width under which the one-line
 	// form is kept (scanned upwards from 4: no one-character string in brackets is narrower than 5)
 	fn min_inline(v: &Value, obj: bool) -> i64 {
